@@ -18,6 +18,7 @@ from vlib import xhex, rnd_u64, U64
 
 THEOREMS = ["C10_print_parse", "C10_cbor_roundtrip", "C10_accepts_canonical", "C10_rejects", "C10_node_id", "C10_new_endpoint",
             "C10_api_image", "C10_total"]
+RELEASE = True          # debug and release builds of the harness (debug_assert!, overflow checks, cfg(debug_assertions))
 RULE = ("EID: grammar-generated canonical strings (dtn:none, dtn://node/service with arbitrary UTF-8 node and service names incl. "
         "': - % ~ .', empty node names, multi-segment and '~' services, ipn:n.s over the full u64 range), non-canonical accepted forms "
         "(leading zeros, '+', no trailing slash), one near-miss per rejection class (no ':', unknown scheme, dtn without '//', dtn://none, "
